@@ -24,6 +24,7 @@ CROSSHAIR_ASSUMPTIONS = [
     "engine: crosshair-tool 0.0.110 + z3 5.1.0 symbolically executing the harness, which calls the real asyncstdlib code in /repo's working tree through its public API only (no pre-translation, nothing cached)",
     "CrossHair substitutes while tracing (also for calls made by asyncstdlib): heapq.* -> CPython's pure-Python Lib/heapq.py definitions; sorted -> list.sort; all/any/map/filter/functools.partial/reduce and several itertools tools behind pure-Python trampolines; isinstance/hasattr/len/hash/range symbolic-aware versions; functools.lru_cache wrappers uncached (C oracles with concrete inputs are therefore invoked under NoTracing)",
     "CrossHair's short-circuiting of contract-bearing functions (uninterpreted results, e.g. for its hash() model) is switched off: every call is really executed",
+    "CrossHair's model of callable() is refined to answer False for symbolic numbers without realizing them",
     "no event loop: coroutines are driven by hand (send/throw); a suspension is a bare yield of a harness token",
     "every counterexample is replayed natively (no tracer) against /repo before it is reported; the concrete pre-flight grid runs against the unpatched stdlib",
     "a verdict 'confirmed' means CrossHair exhausted its path tree (every branch condition decided by z3, no unknown) within the stated bounds; nothing is claimed outside them",
